@@ -12,7 +12,7 @@ Definition len_ok (n : Z) (len mnl mxl : option intv) : Prop :=
   opt_holds mnl (fun k => iz k <= n) /\
   opt_holds mxl (fun k => n <= iz k).
 
-Definition vpred := value -> Prop.
+Notation vpred := (value -> Prop) (only parsing).
 
 (* element lists: exact, head [a, ...], tail [..., a], contains [..., a, ...] *)
 Definition list_spec (cs : list (option vpred)) (l : list value) : Prop :=
